@@ -109,8 +109,9 @@ def read_whole(spec):
 class ChunkedRead:
     """one reader stepped chunk by chunk; generator protocol so that a scheduler can interleave readers"""
 
-    def __init__(self, spec, ks, use_default=False, stream_api=False, max_chunks=400):
+    def __init__(self, spec, ks, use_default=False, stream_api=False, max_chunks=400, cap=None):
         self.spec = spec
+        self.cap = cap                # max_chunk_size handed to read_chunk / read_chunks (None: not passed)
         self.ks = ks                  # list of k (cycled) or a single int
         self.use_default = use_default
         self.stream_api = stream_api  # read_chunks() generator vs successive read_chunk(k)
@@ -139,7 +140,10 @@ class ChunkedRead:
             if self.use_default:
                 stream = call(lambda: iter(reader.read_chunks()))
             else:
-                stream = call(lambda: iter(reader.read_chunks(min_chunk_size=self._k(0))))
+                if self.cap is not None:
+                    stream = call(lambda: iter(reader.read_chunks(min_chunk_size=self._k(0), max_chunk_size=self.cap)))
+                else:
+                    stream = call(lambda: iter(reader.read_chunks(min_chunk_size=self._k(0))))
             if raised(stream):
                 self.error = stream
                 self.done = True
@@ -156,6 +160,8 @@ class ChunkedRead:
                     break
             elif self.use_default:
                 c = call(reader.read_chunk)
+            elif self.cap is not None:
+                c = call(reader.read_chunk, self._k(i), self.cap)
             else:
                 c = call(reader.read_chunk, self._k(i))
             if raised(c):
